@@ -31,6 +31,7 @@ WHAT = {
     "P1": "every keyword kind the parser looks up has a non-empty alias list in every language",
     "P3": "every model element built by the parser receives the current line number; lines are counted before any skip",
     "P5": "table cells are split at pipes not preceded by a backslash and only the escaped pipe is unescaped",
+    "P6": "pending tags are consumed: a builder that hands self.tags to a model element rebinds self.tags to a fresh list (no sharing, no carry-over to the next statement)",
     "E4": "every ParserError raised by the parser carries the current line",
     "E6": "parser terminates: no while loop; only call cycle is action_table <-> action_steps",
 }
@@ -239,6 +240,53 @@ def check_machine(chk, ix, entry, rules, tier="quick", reuse=False):
 # ----------------------------------------------------------------------
 KEYWORD_KINDS = ("feature", "rule", "background", "scenario", "scenario_outline", "examples",
                  "given", "when", "then", "and", "but")
+
+
+def check_tags_consumed(chk, ix, rule="P6"):
+    """Pending tags are consumed by the statement they precede: every Parser method that hands self.tags to a
+    model constructor rebinds self.tags to a fresh list afterwards, on every path to the method's end."""
+    chk.rule(rule, WHAT["P6"])
+    pc = ix.cls("behave.parser:Parser")
+    found = 0
+    for f in pc.methods.values():
+        body = f.node.body
+
+        def uses_tags(stmt):
+            for n in ast.walk(stmt):
+                if isinstance(n, ast.Call):
+                    target = ix.resolve_expr(f.module, n.func)
+                    is_model = isinstance(target, ClassInfo) or (isinstance(n.func, ast.Attribute) and unparse(n.func.value) == "model")
+                    if is_model and any(unparse(a) == "self.tags" for a in list(n.args) + [k.value for k in n.keywords]):
+                        return unparse(n.func)
+            return None
+
+        def fresh_reset(stmt):
+            return isinstance(stmt, ast.Assign) and len(stmt.targets) == 1 and unparse(stmt.targets[0]) == "self.tags" and (
+                (isinstance(stmt.value, ast.List) and not stmt.value.elts) or
+                (isinstance(stmt.value, ast.Call) and unparse(stmt.value.func) == "list" and not stmt.value.args))
+        for i, stmt in enumerate(body):
+            ctor = uses_tags(stmt)
+            if ctor is None:
+                continue
+            found += 1
+            chk.instance(rule)
+            ok = False
+            for later in body[i + 1:]:
+                if fresh_reset(later):
+                    ok = True
+                    break
+                if any(isinstance(n, (ast.Return, ast.Raise)) for n in ast.walk(later)) and not isinstance(later, (ast.If, ast.For, ast.Try, ast.With)):
+                    break
+            if ok:
+                chk.ok(rule, {"method": f.qualname, "constructs": ctor, "then": "self.tags = []"}, nontrivial_key=f.qualname)
+            else:
+                chk.fail(Finding(rule, f.fullname, "%s(tags=self.tags) without a fresh self.tags afterwards" % ctor,
+                                 "%s hands the pending tag list to %s and does not rebind self.tags to a fresh list afterwards: the element "
+                                 "shares the parser's pending-tags list, so the tags of the following tag lines are added to it and its own "
+                                 "tags leak to the next statement" % (f.qualname, ctor), file=f.file, line=stmt.lineno, stmt=norm_stmt(stmt)))
+    if found < 5:
+        raise AnalysisError("anchor drift: only %d Parser methods hand self.tags to a model constructor (5 confirmed: feature, rule, "
+                            "scenario, scenario outline, examples)" % found)
 
 
 def check_keyword_table(chk, ix):
